@@ -14,15 +14,15 @@ SPEC = {
              "irate, idelta, avg/min/max/sum/count/last/present/stddev/stdvar_over_time) -> aggregations (sum/avg/min/max/count, by/without) -> binary operators "
              "(arithmetic, comparison with/without bool, vector-scalar both sides, vector-vector with on/ignoring/group_left/right) -> nested combinations. "
              "Non-trivial: at least one expression of the case has a non-empty upstream result; distinct by (sample set, expression list). A discrepancy fails "
-             "the case only when it shows again on two further fresh loads of the same sample set (what the replay does)."),
+             "the case only when it shows again on a server process started for the case alone (what the replay does)."),
     "assumptions": ["the upstream engine with look-back 5 min over an in-memory Queryable holding exactly the written samples is the reference; an expression the "
                     "reference refuses (many-to-many matching ...) promises nothing",
                     "HTTP 204 acknowledges a remote write; the samples are awaited with an InfluxQL count per series before the first PromQL query",
                     "an empty answer is an empty answer whatever resultType the server prints",
                     "answers larger than 4 MiB or later than 25 s are violations (the reference answers are a few KiB)",
                     "known-finding classes (see known_test.go, one replay each) are left out of the generated expressions and counted under excluded_by_construction",
-                    "discrepancies that disappear on retry / on a fresh load are counted (classes transient_discrepancy_not_reproduced_on_retry, "
-                    "discrepancy_not_reproduced_after_reload) and logged, not failed: they are not re-executable"],
+                    "discrepancies that disappear on retry / on a freshly started server are counted (classes transient_discrepancy_not_reproduced_on_retry, "
+                    "discrepancy_not_reproduced_on_fresh_server) and logged, not failed: they are not re-executable"],
     "campaigns": [
         {"name": "selectors", "run": "^TestSelectors$", "quick": B(12, 1, 600, shrinktime="20s"), "thorough": B(220, 1, 3000, shrinktime="60s")},
         {"name": "range_functions", "run": "^TestRangeFuncs$", "quick": B(12, 2, 600, shrinktime="20s"), "thorough": B(220, 2, 3000, shrinktime="60s")},
